@@ -55,7 +55,7 @@ TEMPLATES = [
 ]
 
 PROBES = ["switch_inside_mkdir_window", "crash_between_wrapper_cpp_writes", "torn_nonempty_prefix",
-          "stale_longer_file_overwritten", "wrapper_reused_3x_with_xml_overloads", "same_submodule_list_object_passed_again", "input_named_through_a_symlink",
+          "stale_longer_file_overwritten", "wrapper_reused_3x_with_xml_overloads", "same_submodule_list_object_passed_again", "input_named_through_a_symlink", "stale_output_almost_equal_to_the_new_one",
           "ascii_locale_nonascii_input", "task_restarted", "shared_matlab_outdir",
           "submodule_stem_with_dot_i", "submodule_h_extension", "cwd_is_source_dir",
           "crash_in_open_write_window", "second_run_over_existing_outputs",
@@ -561,8 +561,28 @@ def run_build(tape, ctx):
         if not alltargets:
             break
         p = alltargets[sc["stale_sel"][2 * i] % len(alltargets)]
-        size = len([so["files"][p] for so in solos if p in so["files"]][0])
-        stale[p] = (b"// STALE OUTPUT OF AN EARLIER RUN\n" * (size // 30 + 3 + sc["stale_sel"][2 * i + 1] % 7))
+        want = [so["files"][p] for so in solos if p in so["files"]][0]
+        size = len(want)
+        sel = sc["stale_sel"][2 * i + 1]
+        kind = sel % 9
+        if kind <= 2 or not want:
+            # what an older version of the interface left behind: longer junk
+            stale[p] = (b"// STALE OUTPUT OF AN EARLIER RUN\n" * (size // 30 + 3 + sel % 7))
+        elif kind == 3:
+            stale[p] = b"// stale\n"                                     # much shorter
+        elif kind == 4:
+            stale[p] = want.replace(b"\n", b"\r\n")                       # the right text, converted to CRLF
+        elif kind == 5:
+            k = (sel // 9) % len(want)                                   # same size, one byte differs
+            stale[p] = want[:k] + bytes([want[k] ^ 1]) + want[k + 1:]
+        elif kind == 6:
+            stale[p] = want[:-1]                                         # last byte (newline) missing
+        elif kind == 7:
+            stale[p] = want + b"  \n"                                    # trailing white space appended
+        else:
+            stale[p] = want                                              # already up to date
+        if kind >= 4:
+            sc["stale_near_miss"] = True
     sc["stale"] = stale
     unrelated = R + "/build/unrelated_keep_me.txt"
     stale_dirs = set()
@@ -629,6 +649,8 @@ def run_build(tape, ctx):
         w.probe("shared_matlab_outdir")
     if stale:
         w.probe("stale_longer_file_overwritten")
+    if sc.get("stale_near_miss"):
+        w.probe("stale_output_almost_equal_to_the_new_one")
     # a context switch between a stat(ENOENT) and the mkdir it guards; and the race actually lost
     last_stat = {}
     seen_sw = False
